@@ -96,13 +96,17 @@ def make_triangle_mesh(points, size_u, size_v, **kwargs):
     # the step size would end one round-off error before or after the end of the domain
     params_u = linalg.linspace(domain[0][0], domain[0][1], size_u)
     params_v = linalg.linspace(domain[1][0], domain[1][1], size_v)
-    varr_size_u = len(range(0, size_u, vertex_spacing))  # vertex array size on the u-direction
-    varr_size_v = len(range(0, size_v, vertex_spacing))  # vertex array size on the v-direction
+    # Every vertex_spacing-th point is used as a vertex; the last point is always used, so that the mesh covers the
+    # whole surface also when vertex_spacing does not divide the number of intervals
+    vidx_u = list(range(0, size_u - 1, vertex_spacing)) + [size_u - 1]
+    vidx_v = list(range(0, size_v - 1, vertex_spacing)) + [size_v - 1]
+    varr_size_u = len(vidx_u)  # vertex array size on the u-direction
+    varr_size_v = len(vidx_v)  # vertex array size on the v-direction
 
     # Generate vertices directly from input points (preliminary evaluation)
     vertices = [Vertex() for _ in range(varr_size_v * varr_size_u)]
-    for i in range(0, size_u, vertex_spacing):
-        for j in range(0, size_v, vertex_spacing):
+    for i in vidx_u:
+        for j in vidx_v:
             idx = j + (i * size_v)
             vertices[vrt_idx].id = vrt_idx
             vertices[vrt_idx].data = points[idx]
